@@ -806,6 +806,17 @@ func (ev *evaluator) call(e *Expr) Val {
 			r.facts.Assert(fmt.Sprintf("(=> (= (s_len %s) 1) (= %s (char_str (select (select %s (s_base %s)) (s_off %s)))))", x.S, t, r.get(ev.st, key), x.S, x.S))
 		}
 		return Val{K: KStr, T: types.Typ[types.String], S: t}
+	case "seq":
+		x := arg(0)
+		if x.K != KSlice || x.T == nil {
+			ev.fail("seq of non-slice")
+		}
+		et := x.T.Underlying().(*types.Slice).Elem()
+		if b, ok := et.Underlying().(*types.Basic); !ok || b.Kind() != types.String {
+			ev.fail("seq() is defined for []string only")
+		}
+		key := r.elemKey(et)
+		return Val{K: KSpec, Sort: "SeqStr", S: fmt.Sprintf("(seq_of_str (select %s (s_base %s)) (s_off %s) (s_len %s))", r.get(ev.st, key), x.S, x.S, x.S)}
 	case "str_prefix":
 		x, n := arg(0), arg(1)
 		if x.K != KSlice || x.T == nil {
